@@ -108,6 +108,8 @@ pub fn apply_edit(doc: &mut Value, e: &EditP) -> Option<String> {
             5 | 6 | 7 => v.as_str().map_or(false, is_uuid),
             8 | 9 => v.is_number(),
             10 => v.as_array().map_or(false, |a| !a.is_empty() && a.iter().all(|x| x.is_number())),
+            // 11: a calendar without entries (what an editor leaves after "new calendar"): the period list of a yearly schedule
+            11 => p.len() == 4 && p[0] == "schedules" && p[1] == "year" && p[3] == "values" && v.as_array().map_or(false, |a| !a.is_empty()),
             _ => false,
         })
         .collect();
@@ -116,7 +118,7 @@ pub fn apply_edit(doc: &mut Value, e: &EditP) -> Option<String> {
     }
     let (path, val) = cand[(e.at as usize) % cand.len()];
     let (parent, last) = path.split_at(path.len().saturating_sub(1));
-    let desc = format!("{}@{}", ["delete-key", "delete-item", "empty-array", "duplicate-item", "truncate-array", "redirect-id-existing", "redirect-id-fresh", "redirect-id-nil", "zero-number", "negate-number", "resize-values"][e.kind as usize % 11], path.join("."));
+    let desc = format!("{}@{}", ["delete-key", "delete-item", "empty-array", "duplicate-item", "truncate-array", "redirect-id-existing", "redirect-id-fresh", "redirect-id-nil", "zero-number", "negate-number", "resize-values", "empty-calendar"][e.kind as usize % 12], path.join("."));
     match e.kind {
         0 => {
             if let Some(Value::Object(m)) = get_mut(doc, parent) {
@@ -131,7 +133,7 @@ pub fn apply_edit(doc: &mut Value, e: &EditP) -> Option<String> {
                 }
             }
         }
-        2 => {
+        2 | 11 => {
             *get_mut(doc, path)? = json!([]);
         }
         3 => {
@@ -587,7 +589,12 @@ fn check_mutant(h: &CaseH, c: &MutCase) -> Verdict {
         h.class(&format!("kind/{}", e.kind));
     }
     let out = worker_call("C14.mutant", c, Duration::from_secs(60));
-    let v = verdict_of(h, out, &what, closed && c.edits.is_empty());
+    // a calendar without entries breaks no link and gives no size or physical value a sign: the model stays sane
+    let only_empty_calendars = c.edits.iter().all(|e| e.kind == 11);
+    if closed && only_empty_calendars && !c.edits.is_empty() {
+        h.class("sane-model-with-an-empty-calendar");
+    }
+    let v = verdict_of(h, out, &what, closed && only_empty_calendars);
     if !c.edits.is_empty() {
         h.nontrivial(fp(&(what.clone(), &c.edits)));
     }
@@ -602,7 +609,7 @@ fn mut_case() -> BoxedStrategy<MutCase> {
         3 => model::plan(Params { open: false, max_spaces: 3, ..Params::default() }).prop_map(|p| Base::Plan(Box::new(p))),
         1 => model::plan(Params { open: true, max_spaces: 3, ..Params::default() }).prop_map(|p| Base::Plan(Box::new(p))),
     ];
-    (base, proptest::collection::vec((any::<u32>(), 0u8..11, any::<u16>()).prop_map(|(at, kind, arg)| EditP { at, kind, arg }), 0..=3))
+    (base, proptest::collection::vec((any::<u32>(), prop_oneof![11 => 0u8..11, 2 => Just(11u8)], any::<u16>()).prop_map(|(at, kind, arg)| EditP { at, kind, arg }), 0..=3))
         .prop_map(|(base, edits)| MutCase { base, edits })
         .boxed()
 }
@@ -782,7 +789,7 @@ fn check_history(h: &CaseH, ops: &Vec<Op>) -> Verdict {
 
 pub fn run(args: &Args) -> ! {
     let ctx = Ctx::new("C14", "exploration", args);
-    ctx.rule("mutants: shipped models and generated models (closed and open plans) with 0-3 structural edits of the JSON tree (delete key / array item, empty / duplicate / truncate array, redirect an id to another, a fresh or the nil id, zero / negate a number, resize a numeric array to 0/1/23/25 values), trees that Model::from_json rejects are counted; histories: 1-25 editor operations from Model::default() with the indicators recomputed after every step; louvres: shipped and generated models with 2-90 equal slats (same extent along the wall, stacked at a fixed spacing: coinciding centres on the longest axis of the group, below, at and above the leaf size of the acceleration structure) in front of one of their windows; sun_facing (exhaustive): for every zone and every hour of its July design day a roof window whose plane faces the sun of that hour exactly, and every tilt / azimuth offset of up to 0.004 (thorough 0.012) degrees in steps of 0.001: the indicators are finite and the obstruction factor lies in [0, 1]. Every computation runs in a worker process (60 s watchdog): panic, hang or process death is a violation; after a panic the same process must still compute a known good model to its baseline; unedited closed models must give only finite numbers and an indicators JSON that loads back to an equal value. Non-trivial: at least one edit applied; history with a window.");
+    ctx.rule("mutants: shipped models and generated models (closed and open plans) with 0-3 structural edits of the JSON tree (delete key / array item, empty / duplicate / truncate array, redirect an id to another, a fresh or the nil id, zero / negate a number, resize a numeric array to 0/1/23/25 values, empty the period list of a yearly schedule - the last one keeps a closed model sane, so its numbers must stay finite), trees that Model::from_json rejects are counted; histories: 1-25 editor operations from Model::default() with the indicators recomputed after every step; louvres: shipped and generated models with 2-90 equal slats (same extent along the wall, stacked at a fixed spacing: coinciding centres on the longest axis of the group, below, at and above the leaf size of the acceleration structure) in front of one of their windows; sun_facing (exhaustive): for every zone and every hour of its July design day a roof window whose plane faces the sun of that hour exactly, and every tilt / azimuth offset of up to 0.004 (thorough 0.012) degrees in steps of 0.001: the indicators are finite and the obstruction factor lies in [0, 1]. Every computation runs in a worker process (60 s watchdog): panic, hang or process death is a violation; after a panic the same process must still compute a known good model to its baseline; unedited closed models must give only finite numbers and an indicators JSON that loads back to an equal value. Non-trivial: at least one edit applied; history with a window.");
     ctx.assume("finiteness is read from the Debug text of EnergyIndicators (every f32, also inside Option); 'closed' = generated closed plan or shipped model, unedited");
     ctx.replay_regressions(replay_one);
     ctx.run_prop("mutants", ctx.tier().pick(40_000, 1_000_000), mut_case, check_mutant);
@@ -792,7 +799,7 @@ pub fn run(args: &Args) -> ! {
     ctx.require_class("sun_facing/exactly-facing");
     ctx.require_class("louvres/slats/>30");
     ctx.require_class("louvres/outcome/ok");
-    for c in ["mutants/outcome/ok", "mutants/outcome/rejected", "mutants/sane-model-checked", "histories/outcome/ok"] {
+    for c in ["mutants/outcome/ok", "mutants/outcome/rejected", "mutants/sane-model-checked", "mutants/sane-model-with-an-empty-calendar", "histories/outcome/ok"] {
         ctx.require_class(c);
     }
     if ctx.tier() == crate::engine::Tier::Thorough {
